@@ -274,17 +274,26 @@ class Hist:
                     zones.append((keys, int(tsmax)))
                     ondisk.update(keys)
                 shards[si]["segs"].append((mt, zones))
-        # an aggregate does not drop repeated ids: a key counted twice is visible in two places — in a segment and in
-        # the memtable (inside a flush window, or replayed from a WAL file that outlived its segment at a restart)
-        twice = set()
+        # an aggregate does not drop repeated ids: a key counted more often than it occurs in segment zones is also in
+        # the memtable (inside a flush window, or replayed from a WAL file that outlived its segment at a restart); a key
+        # can also sit in two segments (a compaction round merged the zones of its event type out of a segment that stays
+        # live for another type) — those copies are already in the zone lists above
+        disk_occ = {}
+        for sh_ in shards:
+            for mt, zones in sh_["segs"]:
+                for keys, _ in zones:
+                    for k in keys:
+                        disk_occ[k] = disk_occ.get(k, 0) + 1
+        counted = {}
         if ondisk:
             for tname in TYPES[:self.ntypes]:
                 rc = self.eng.rows(f"QUERY {tname} COUNT BY k")
                 if rc["status"] == 200:
-                    twice |= set(int(x["k"]) for x in rc["rows"] if int(x.get("count", 1)) > 1)
-        self.twice = twice
+                    for x in rc["rows"]:
+                        counted[int(x["k"])] = int(x.get("count", 1))
+        self.twice = set(k for k, n in counted.items() if n > 1)
         for k, e in sorted(self.events.items()):
-            if k not in ondisk or k in window_keys or k in twice:
+            if k not in ondisk or k in window_keys or counted.get(k, 1) > disk_occ.get(k, 0):
                 shards[(e["id"] >> 12) & 0x3FF]["mem"].append(k)
         # the recorded zone timestamp_max must be the max core timestamp of the zone's rows (the model derives it)
         for s in shards:
@@ -621,7 +630,7 @@ def hidden_names(line):
         if tok.startswith("R:"):
             f = tok.split(":")
             q = f[2].split(",")
-            if len(q) == 6 and q[3] == "P" and q[4] == "0":
+            if len(q) >= 6 and q[3] == "P" and q[4] == "0":
                 out.add(f[1])
     return out
 
